@@ -55,6 +55,9 @@
 #include "ref_node.h"
 #include "ref_part.h"
 #include "ref_sort.h"
+#ifdef NASA_REFINE_VERIF
+#include "ref_verif.h"
+#endif
 
 REF_FCN REF_STATUS ref_migrate_create(REF_MIGRATE *ref_migrate_ptr,
                                       REF_GRID ref_grid) {
@@ -1727,6 +1730,9 @@ REF_FCN REF_STATUS ref_migrate_shufflin(REF_GRID ref_grid) {
   RSS(ref_node_ghost_real(ref_node), "ghost real");
   RSS(ref_geom_ghost(ref_grid_geom(ref_grid), ref_node), "ghost geom");
 
+#ifdef NASA_REFINE_VERIF
+  ref_verif_sync("migrate_shufflin", ref_grid);
+#endif
   return REF_SUCCESS;
 }
 
